@@ -8,6 +8,8 @@ BUILD = os.path.join(VERIF, "build")
 VERIFICATION_MSG = [
     (re.compile(r"^postcondition not satisfied"), "ensures"),
     (re.compile(r"^precondition not satisfied"), "requires"),
+    (re.compile(r"^unable to prove post-condition of closure"), "ensures"),
+    (re.compile(r"^Call to non-static function fails to satisfy `callee.requires\(args\)`"), "requires"),
     (re.compile(r"^possible arithmetic underflow/overflow"), "overflow"),
     (re.compile(r"^possible division by zero"), "overflow"),
     (re.compile(r"^possible bit shift underflow/overflow"), "overflow"),
@@ -154,7 +156,7 @@ def run_unit(name, prop, canary=False, mutate=None, suffix=""):
         # it lies in spliced/env text (invariants, assertions)
         ctag = None
         cands = [s for s in spans if (s.get("label") or "").startswith("failed")]
-        if not cands and k in ("invariant", "assert", "decreases"):
+        if not cands and (k in ("invariant", "assert", "decreases") or msg.startswith("unable to prove post-condition of closure")):
             cands = prim
         for s in cands:
             l = u.locate(s["byte_start"])
